@@ -255,6 +255,24 @@ pub fn run_c04(tier: Tier) -> i32 {
         ]),
         "C04",
     ));
+    // a later slot is finalized (certificate only, no parent link) while slot 1 is still undecided:
+    // what was accepted in slot 1 must not be forgotten - exact repeats (listed twice) and conflicts
+    fams.push(PoolSlotSys::new(
+        "later-slot-finalized-while-slot-1-undecided",
+        e3.clone(),
+        0,
+        cat(vec![
+            votes(N, 1, 0, &[1]),
+            votes(N, 1, 0, &[1]),
+            votes(S, 1, 0, &[1]),
+            votes(F, 1, 0, &[1]),
+            votes(S, 1, 0, &[2]),
+            votes(S, 1, 0, &[2]),
+            votes(N, 1, 1, &[2]),
+            vec![cert(CK::FastFinal, 2, 0, &[0, 1, 2], &[]), cert(CK::FastFinal, 3, 0, &[0, 1, 2], &[])],
+        ]),
+        "C04",
+    ));
     // votes that arrive after the block they concern is already certified (by votes or by a
     // received certificate): still recorded, repeated -> Duplicate, conflicting -> Slashable
     let t5 = Arc::new(make_epoch(&[1, 1, 1, 1, 1]));
